@@ -37,6 +37,7 @@ Definition ditem_eqb (a b : ditem) : bool :=
   | DTry, DTry | DFinally, DFinally => true
   | DExcept c, DExcept c' => strs_eqb c c'
   | DRaise c, DRaise c' => String.eqb c c'
+  | DBody h, DBody h' => String.eqb h h'
   | _, _ => false
   end.
 
